@@ -104,6 +104,17 @@ def daysBeforeMonth (leap : Bool) (m : Int) : Int :=
 /-- `_ymd2ord`: 0001-01-01 is day 1 -/
 def ymd2ord (y m d : Int) : Int := daysBeforeYear y + daysBeforeMonth (isLeap y) m + d
 
+/-- the tail of `_ord2ymd`: month and day from the day-of-year offset `n` (0-based), estimating the
+    month as `(n + 50) >> 5` and correcting it downwards when that overshoots -/
+def monthDay (year : Int) (leap : Bool) (n : Int) : Int × Int × Int :=
+  let month := (n + 50) / 32
+  let preceding := daysBeforeMonth leap month
+  if preceding > n then
+    let month' := month - 1
+    let preceding' := preceding - (daysInMonthCommon month' + (if month' = 2 ∧ leap = true then 1 else 0))
+    (year, month', n - preceding' + 1)
+  else (year, month, n - preceding + 1)
+
 /-- `_ord2ymd` -/
 def ord2ymd (ord : Int) : Int × Int × Int :=
   let n := ord - 1
@@ -118,13 +129,7 @@ def ord2ymd (ord : Int) : Int × Int × Int :=
   let year := n400 * 400 + 1 + n100 * 100 + n4 * 4 + n1
   if n1 = 4 ∨ n100 = 4 then (year - 1, 12, 31) else
   let leap : Bool := decide (n1 = 3) && (decide (n4 ≠ 24) || decide (n100 = 3))
-  let month := (n + 50) / 32
-  let preceding := daysBeforeMonth leap month
-  if preceding > n then
-    let month' := month - 1
-    let preceding' := preceding - (daysInMonthCommon month' + (if month' = 2 ∧ leap = true then 1 else 0))
-    (year, month', n - preceding' + 1)
-  else (year, month, n - preceding + 1)
+  monthDay year leap n
 
 structure Fields where
   year : Int
